@@ -37,12 +37,12 @@ Lines ==
      [kind |-> "assign",  line |-> "focus=",         opt |-> "focus", val |-> ""],
      [kind |-> "assign",  line |-> "hide=f",         opt |-> "hide", val |-> "f"],
      [kind |-> "assign",  line |-> "tagroot=k",      opt |-> "tagroot", val |-> "k"],
-     [kind |-> "assign",  line |-> "lines",          opt |-> "granularity", val |-> "lines"],
+     [kind |-> "assign",  line |-> "lines=true",     opt |-> "granularity", val |-> "lines"],
      [kind |-> "assign",  line |-> "granularity=files", opt |-> "granularity", val |-> "files"],
      [kind |-> "assign",  line |-> "nodecount=2",    opt |-> "nodecount", val |-> "2"],
      [kind |-> "assign",  line |-> "nodecount=-2",   opt |-> "nodecount", val |-> "-2"],   \* negative other than the default -1: no limit
      [kind |-> "assign",  line |-> "sample_index=s1", opt |-> "sample_index", val |-> "s1"],
-     [kind |-> "assign",  line |-> "cum",            opt |-> "sort", val |-> "cum"],
+     [kind |-> "assign",  line |-> "cum=true",       opt |-> "sort", val |-> "cum"],
      [kind |-> "assign",  line |-> "noinlines",      opt |-> "noinlines", val |-> "true"],
      [kind |-> "assign",  line |-> "taghide=k",      opt |-> "taghide", val |-> "k"],
      [kind |-> "assign",  line |-> "relative_percentages=true", opt |-> "relative_percentages", val |-> "true"],
@@ -53,6 +53,8 @@ Lines ==
      [kind |-> "bad",     line |-> "nodecount=abc",  opt |-> "", val |-> ""],
      [kind |-> "bad",     line |-> "nodecount=99999999999999999999", opt |-> "", val |-> ""],
      [kind |-> "bad",     line |-> "nodecount",      opt |-> "", val |-> ""],      \* value missing
+     [kind |-> "bad",     line |-> "lines",          opt |-> "", val |-> ""],      \* the bare name of a choice is answered "unknown config field"
+     [kind |-> "bad",     line |-> "cum",            opt |-> "", val |-> ""],
      [kind |-> "bad",     line |-> "sample_index=nosuch", opt |-> "", val |-> ""],
      [kind |-> "bad",     line |-> "granularity=bogus", opt |-> "", val |-> ""],
      [kind |-> "bad",     line |-> "peek",           opt |-> "", val |-> ""],      \* argument missing
